@@ -644,3 +644,26 @@ Fixpoint gval_eqv (a b : gval) {struct a} : bool :=
     forallb (fun kv => match gassoc Z.eqb (fst kv) ys with Some y => gval_eqv (snd kv) y | None => false end) xs
   | _, _ => false
   end.
+
+(* ---------------------------------------------------------------- by field name: every declared name resolves to its own field *)
+Definition flabel_eqb (a b : flabel) : bool :=
+  match a, b with
+  | LSingular, LSingular => true
+  | LRepeated p, LRepeated q => Bool.eqb p q
+  | LMap k, LMap k' => k =? k'
+  | _, _ => false
+  end.
+Definition ftype_eqb (a b : ftype) : bool :=
+  match a, b with
+  | TScalar k, TScalar k' => k =? k'
+  | TMsg n, TMsg n' => bytes_eqb n n'
+  | _, _ => false
+  end.
+Definition fdesc_eqb (a b : fdesc) : bool :=
+  (fd_num a =? fd_num b) && bytes_eqb (fd_name a) (fd_name b) && bytes_eqb (fd_json a) (fd_json b) &&
+  flabel_eqb (fd_label a) (fd_label b) && ftype_eqb (fd_type a) (fd_type b).
+Definition names_okb (SC : schema) : bool :=
+  forallb (fun md => forallb (fun fd => match find_field_name md (fd_name fd) with
+                                        | Some fd' => fdesc_eqb fd' fd
+                                        | None => false
+                                        end) (md_fields md)) SC.
